@@ -43,6 +43,9 @@ type bprover struct {
 	repMemo map[ssa.Value]ssa.Value
 	// parity of len(parameter) established at every call site (a helper that walks its argument list in pairs)
 	entryPar map[string]int
+	// while a goal about the results of a call is being proved inside the callee: what the caller knows about them
+	callerFacts []dfact
+	callerCall  *ssa.Call
 }
 
 func isSignedInt(t types.Type) bool {
@@ -1020,6 +1023,16 @@ func (p *bprover) direct(goal dfact, s *factSet) bool {
 			return true
 		}
 	}
+	// the index of the best element so far (see bestSoFarIndex): below the length wherever the slice is known non-empty
+	if goal.c >= -1 && strings.HasPrefix(goal.a, "v:") && strings.HasPrefix(goal.b, "len:") {
+		if ip, ok := p.vals[goal.a].(*ssa.Phi); ok {
+			if sp, ok := p.vals[goal.b].(*ssa.Phi); ok && bestSoFarIndex(ip, sp) {
+				if d0, ok := shortest(s.fs, "0", goal.b); ok && d0 <= -1 {
+					return true
+				}
+			}
+		}
+	}
 	d, ok := shortest(s.fs, goal.a, goal.b)
 	if !ok {
 		return false
@@ -1226,6 +1239,11 @@ func (p *bprover) proveAtEnd(goal dfact, b *ssa.BasicBlock, extra *factSet, dept
 
 // ProveLE proves  x - y <= c  immediately before instruction `at`.
 func (p *bprover) ProveLE(x, y lt, c int64, at ssa.Instruction) bool {
+	return p.ProveLEx(x, y, c, at, nil)
+}
+
+// ProveLEx: the same under additional assumptions (facts the caller established about the values concerned).
+func (p *bprover) ProveLEx(x, y lt, c int64, at ssa.Instruction, assume []dfact) bool {
 	goal := dfact{x.n, y.n, c - x.k + y.k}
 	// 0 <= (A - B) + k   is proved as   B - A <= k   (A, B arbitrary terms; no overflow for lengths/indices);
 	// the difference may also have been tested as a value of its own (d := A - B; if d > 0 {..}): that is tried first
@@ -1234,7 +1252,7 @@ func (p *bprover) ProveLE(x, y lt, c int64, at ssa.Instruction) bool {
 			if _, isC := constInt(bo.Y); !isC {
 				p.stack = map[string]bool{}
 				p.budget = 400
-				if p.prove(goal, at.Block(), &factSet{par: map[string]int{}}, 3) {
+				if p.prove(goal, at.Block(), &factSet{par: map[string]int{}, fs: append([]dfact(nil), assume...)}, 3) {
 					return true
 				}
 				a, b := p.lin(bo.X), p.lin(bo.Y)
@@ -1244,7 +1262,7 @@ func (p *bprover) ProveLE(x, y lt, c int64, at ssa.Instruction) bool {
 	}
 	p.stack = map[string]bool{}
 	p.budget = 1500
-	return p.prove(goal, at.Block(), &factSet{par: map[string]int{}}, 6)
+	return p.prove(goal, at.Block(), &factSet{par: map[string]int{}, fs: append([]dfact(nil), assume...)}, 6)
 }
 
 var calleeProofDepth int
@@ -1394,8 +1412,55 @@ func (p *bprover) viaCalleeAt(goal dfact, at *ssa.BasicBlock) bool {
 	if r, ok := p.c.viaMemo[memoKey]; ok {
 		return r
 	}
+	// what the caller established about the results on the way to the site (len(r0) >= 1 after `if len(r0) == 0 { return }`):
+	// facts that mention nothing but results of this call and constants become assumptions at the callee's returns
+	var callerFacts []dfact
+	{
+		cs := &factSet{par: map[string]int{}}
+		p.chainFacts(at, cs)
+		isRes := func(n string) bool {
+			if n == "0" {
+				return true
+			}
+			switch x := p.vals[n].(type) {
+			case *ssa.Extract:
+				return x.Tuple == ssa.Value(call)
+			case *ssa.Call:
+				return x == call
+			}
+			return false
+		}
+		for _, f := range cs.fs {
+			if isRes(f.a) && isRes(f.b) && (f.a != "0" || f.b != "0") {
+				callerFacts = append(callerFacts, f)
+			}
+		}
+		// len(r) != 0 is len(r) >= 1
+		for _, n := range cs.ns {
+			if n.c != 0 {
+				continue
+			}
+			ln := ""
+			if n.b == "0" && strings.HasPrefix(n.a, "len:") {
+				ln = n.a
+			} else if n.a == "0" && strings.HasPrefix(n.b, "len:") {
+				ln = n.b
+			}
+			if ln != "" && isRes(ln) {
+				callerFacts = append(callerFacts, dfact{"0", ln, -1})
+			}
+		}
+	}
+	for _, f := range callerFacts {
+		memoKey += "|" + f.String()
+	}
+	if r, ok := p.c.viaMemo[memoKey]; ok {
+		return r
+	}
 	p.c.viaMemo[memoKey] = false // cycles do not prove anything
+	p.callerFacts, p.callerCall = callerFacts, call
 	res := p.viaCalleeProve(cf, goal, idx, lenParam, guard, lenIdx, nilGuard)
+	p.callerFacts, p.callerCall = nil, nil
 	p.c.viaMemo[memoKey] = res
 	return res
 }
@@ -1482,10 +1547,42 @@ func (p *bprover) viaCalleeProve(cf *ssa.Function, goal dfact, idx, lenParam map
 			if i, ok := idx[goal.b]; ok && i >= len(rr) {
 				return false
 			}
+			// the caller's assumptions, expressed on the values this return hands back (only when each result concerned
+			// is a single value here)
+			var assume []dfact
+			for _, f := range p.callerFacts {
+				tr := func(n string) (lt, bool) {
+					if n == "0" {
+						return lt{"0", 0}, true
+					}
+					var ri int
+					isLen := strings.HasPrefix(n, "len:")
+					switch x := p.vals[n].(type) {
+					case *ssa.Extract:
+						ri = x.Index
+					case *ssa.Call:
+						ri = 0
+					default:
+						return lt{}, false
+					}
+					if ri >= len(rr) || len(rr[ri]) != 1 {
+						return lt{}, false
+					}
+					if isLen {
+						return pr.lenOf(rr[ri][0]), true
+					}
+					return pr.lin(rr[ri][0]), true
+				}
+				a, ok1 := tr(f.a)
+				b, ok2 := tr(f.b)
+				if ok1 && ok2 {
+					assume = append(assume, dfact{a.n, b.n, f.c - a.k + b.k})
+				}
+			}
 			for _, x := range side(goal.a) {
 				for _, y := range side(goal.b) {
 					any = true
-					if !pr.ProveLE(x, y, goal.c, ret) {
+					if !pr.ProveLEx(x, y, goal.c, ret, assume) {
 						return false
 					}
 				}
